@@ -665,9 +665,17 @@ func (in *Interp) fpBits(s *State, f *term.Term) *term.Term {
 	if f.Op == term.OpFpFromBits {
 		return f.Args[0]
 	}
-	// fresh bits b with to_fp(b) = f (structural equality)
+	// fresh bits b with to_fp(b) = f (structural equality); one b per float term and path
+	if s.uf == nil {
+		s.uf = map[string][]ufApp{}
+	}
+	key := fmt.Sprintf("$fpbits%d", f.ID)
+	if a := s.uf[key]; len(a) > 0 {
+		return a[0].res
+	}
 	b := in.internalVar(f.S.W)
 	in.addPC(s, in.ts.Eq(in.ts.FFromBits(b), f))
+	s.uf[key] = []ufApp{{res: b}}
 	return b
 }
 
